@@ -41,9 +41,11 @@ def run(ctx):
              '{\\footnote{a}}', '{\\\\}', '{\\LTinput{f1.tex}}',
              # lengths and numbers in odd shapes
              '{.em}', '{,}', '{.}', '{1.}', '{-1em}', '{ .5em}', '{0,5\\textwidth}', '{1e3pt}', '{٣em}', '[.]{a}', '{a}[٣]',
+             # key-value lists with braces that do not match inside the list, parameter counts beyond all bounds
+             '[a=}b{]{x}', '[a={]{x}', '[}={]{x}', '[a={b},c=}d{,e]{x}', '{\\a}[99999999999999999999]{}', '{\\a}[12]{#1}', '{\\a}[٣]{#1}', '{\\a}[0010][d]{#2}',
              # a parameter sign in front of characters that are digits for str.isdigit() only (superscripts, circled digits, fractions)
              '{#\u00b2}', ' #\u00b3', '{a#\u2460b}', '[#\u2082]', '{#\u0663}', '#\u00bd']
-    NUMTAILS = {'{.em}', '{,}', '{.}', '{1.}', '{-1em}', '{ .5em}', '[.]{a}', '{#\u00b2}', ' #\u00b3', '{a#\u2460b}', '[#\u2082]', '#\u00bd'}
+    NUMTAILS = {'[a=}b{]{x}', '[a={]{x}', '[}={]{x}', '[a={b},c=}d{,e]{x}', '{\\a}[99999999999999999999]{}', '{\\a}[12]{#1}', '{\\a}[0010][d]{#2}', '{.em}', '{,}', '{.}', '{1.}', '{-1em}', '{ .5em}', '[.]{a}', '{#\u00b2}', ' #\u00b3', '{a#\u2460b}', '[#\u2082]', '#\u00bd'}
     rng = ctx.rng
     for nm in names:
         for t in tails:
